@@ -9,6 +9,7 @@ import (
 	"net"
 	"net/netip"
 	"os"
+	"reflect"
 	"regexp"
 	"runtime"
 	"strconv"
@@ -257,11 +258,24 @@ func (e *Env) hold(point string) (release func()) {
 
 func (e *Env) installHook() {
 	bgp.VerifSetHook(func(point string, obj any) {
+		// a gate may be set for one direction only: "<point>#in" / "<point>#out" (the FSM's direction field is read
+		// through reflection; it is unexported)
+		key2 := ""
+		if v := reflect.ValueOf(obj); v.Kind() == reflect.Ptr && !v.IsNil() && v.Elem().Kind() == reflect.Struct {
+			if f := v.Elem().FieldByName("direction"); f.IsValid() && f.CanInt() {
+				key2 = point + "#" + []string{"out", "in"}[int(f.Int())&1]
+			}
+		}
 		e.gates.mu.Lock()
 		ch := e.gates.held[point]
+		name := point
+		if ch == nil && key2 != "" {
+			ch = e.gates.held[key2]
+			name = key2
+		}
 		e.gates.mu.Unlock()
 		if ch != nil {
-			e.tr.log("-", "pt.reached", point)
+			e.tr.log("-", "pt.reached", name)
 			<-ch
 		}
 	})
